@@ -29,6 +29,22 @@ def pre_hook(world, gen_, mons):
                 if world.ledger.get(who, asset[1]) >= amt:
                     gen_.count += 1
                     return world.op_donate(who, p.addr, asset, amt), []
+        if gen_.rng.random() < 0.02:
+            # a direct swap on a native/native pair with the pair's OTHER coin attached as well, in the order of its reserve
+            nn = [p for p in world.pairs if p.kind() == "nn" and min(p.reserves(world.ledger)) > 0]
+            if nn:
+                p = gen_.rng.choice(nn)
+                i = gen_.rng.randrange(2)
+                x, y = p.reserves(world.ledger)[i], p.reserves(world.ledger)[1 - i]
+                who = gen_.rng.choice(["attacker", "trader1"])
+                a = max(1, min(world.ledger.get(who, p.assets[i][1]), x // gen_.rng.choice([2, 5, 20, 200])))
+                b = max(1, min(world.ledger.get(who, p.assets[1 - i][1]), y * gen_.rng.choice([1, 2, 5]) // gen_.rng.choice([1, 3])))
+                gen_.count += 1
+                op = world.op_swap_raw(who, p, "direct", p.assets[i], a, None, 0, to=None,
+                                       funds_override=sorted([[p.assets[i][1], str(a)], [p.assets[1 - i][1], str(b)]]))
+                op["sem"]["cell"] = "direct/eq/funds=both_pool_coins/named=a%d" % i
+                op["sem"]["malformed_gen"] = True
+                return op, []
         return orig_next()
     gen_.next = nxt
 
